@@ -581,6 +581,59 @@ def run(tier):
     chk.note("name-collision constructor grid done (%d calls over %d sorts)" % (ncalls - n1, len(pool)))
     chk.sample({"kind": "constructor", "case": "Pow(BV8 symbol, BV8 constant) / BVRol(x, -1) / Ite(Bool, Int, Real) ..."})
 
+    from io import StringIO
+    from pysmt.smtlib.parser import SmtLibParser
+    # ---- ABSORBING-OPERAND family: normalising constructors whose other operands trigger the normalisation
+    from . import c03_absorb
+    n2 = ncalls
+    env5 = Environment()
+
+    def absorb_check(prefix, key, thunk, want, probe=None, extra=None):
+        """want None: must raise; otherwise the descriptor of the sort of the returned term."""
+        nonlocal ncalls
+        ncalls += 1
+        try:
+            f = thunk()
+        except BaseException as ex0:   # noqa: any error = rejected (ill-typed array values make the error message recurse)
+            if isinstance(ex0, (KeyboardInterrupt, SystemExit)):
+                raise
+            if want is not None:
+                chk.violation(dict({"kind": "input", "what": "%s is well-sorted by the rule (result sort %s) but was rejected (%s)"
+                                    % (key, want, type(ex0).__name__)}, **(extra or {})), key="%s-rejects:%s" % (prefix, key))
+            return
+        chk.count((prefix, key))
+        g = probe(f) if probe else f
+        try:
+            got = tocoq.tkey(g.get_type())
+        except Exception:   # noqa
+            got = None
+        if want is None:
+            chk.violation(dict({"kind": "input", "what": "%s is ill-sorted by the rule of the operator but returned %s of type %s: the operand of the "
+                                "wrong sort was absorbed by the normalisation before any node was type-checked" % (key, safe_ser(f), safe_type(g)),
+                                "repro": "FormulaManager.<constructor> as spelled in the key", "legend": c03_absorb.LEGEND}, **(extra or {})),
+                          key="%s:%s" % (prefix, key))
+        elif got != want:
+            chk.violation(dict({"kind": "input", "what": "%s: returned %s of sort %s, the rule gives %s" % (key, safe_ser(f), got, want)}, **(extra or {})),
+                          key="%s-type:%s" % (prefix, key))
+        else:
+            try:
+                if str(refeval.type_of(f)) != safe_type(f):
+                    chk.violation(dict({"kind": "input", "what": "%s: reported type %s, derived %s" % (key, safe_type(f), refeval.type_of(f))}, **(extra or {})),
+                                  key="%s-type2:%s" % (prefix, key))
+            except refeval.IllTyped as ex:
+                chk.violation(dict({"kind": "input", "what": "%s returned the ill-typed %s: %s" % (key, safe_ser(f), ex)}, **(extra or {})),
+                              key="%s-illtyped:%s" % (prefix, key))
+            except Exception:   # noqa: outside the reference's fragment
+                pass
+    for key, thunk, want in c03_absorb.cases(env5):
+        absorb_check("absorb", key, thunk, want)
+    nabs = ncalls - n2
+    for key, text, want in c03_absorb.scripts(env5):
+        absorb_check("absorb-parser", key, (lambda text=text: SmtLibParser(Environment()).get_script(StringIO(text)).get_last_formula()), want,
+                     probe=(lambda f: f.arg(0) if f.args() else f), extra={"script": text})
+    chk.cov["absorbing_operand_calls"] = {"constructor": nabs, "scripts": ncalls - n2 - nabs}
+    chk.note("absorbing-operand family done (%d constructor calls, %d scripts)" % (nabs, ncalls - n2 - nabs))
+    chk.cov["constructor_calls"] = ncalls
     # ------------------------------------------------------------------ the parser's own sort checks
     chk.note("SMT-LIB scripts: declared sort x derived sort through every binding construct of the parser")
     from io import StringIO
@@ -680,7 +733,9 @@ def run(tier):
     return chk.finish(TRUSTED, ASSUME,
                       "create_node level: every operator x payload grid x argument-sort tuples over an 11-sort universe (arity 0-2 exhaustive, arity 3 "
                       "sampled in quick / exhaustive in thorough, arity 4-5 sampled for n-ary operators); constructor level: every public constructor "
-                      "x sort combinations x symbol/constant variants; WIDTH-BOUNDARY family (BV widths 0,1,2,8,9,16,33,64,65,257 and array / function "
+                      "x sort combinations x symbol/constant variants; ABSORBING-OPERAND family (normalising constructors with the operands that trigger the "
+                      "normalisation: singleton lists, empty binders, constant folding, default-valued array entries, stores / selects on constant arrays, "
+                      "identical operands, zero steps; 1.8 k constructor calls + 250 scripts, verdicts from sort descriptors); WIDTH-BOUNDARY family (BV widths 0,1,2,8,9,16,33,64,65,257 and array / function "
                       "sorts over them, every ordered pair) at both levels with the verdict stated directly on the sorts; NAME-COLLISION family (28 sorts: builtin sorts, Pair{Int, Int} and user sorts NAMED like their renderings, "
                       "up to spacing / case, like symbols and functions, like the Array constructor; every ordered pair x 23 constructors and 7 node types; "
                       "verdicts from structural descriptors); PARSER family (declared sort x "
